@@ -69,12 +69,26 @@ func (t *topicsState) dump(event *api.StateBroadcastEvent) {
 	})
 }
 
+// localTimestamp stamps a local write to topic: the node clock, but always after what this
+// node already stores for that topic. A local write happens after everything the node has
+// seen; stamping it with a lagging clock would make this node keep its write while every
+// peer (last-writer-wins) keeps the entry it replaced.
+func (t *topicsState) localTimestamp(topic []byte) int64 {
+	now := clock()
+	if local, err := t.get(topic); err == nil && len(local) == 1 {
+		if last := crdt.GetLastEntryUpdate(local[0]); last >= now {
+			now = last + 1
+		}
+	}
+	return now
+}
+
 func (t *topicsState) Set(message *packet.Publish) error {
 	t.mu.Lock()
 	defer t.mu.Unlock()
 	msg := &api.RetainedMessage{
 		Publish:   message,
-		LastAdded: clock(),
+		LastAdded: t.localTimestamp(message.Topic),
 	}
 	err := t.set(message.Topic, msg)
 	if err != nil {
@@ -112,7 +126,7 @@ func (t *topicsState) Delete(topic []byte) error {
 			Topic:   topic,
 			Payload: nil,
 		},
-		LastDeleted: clock(),
+		LastDeleted: t.localTimestamp(topic),
 	}
 	err := t.set(topic, msg)
 	if err != nil {
